@@ -2,6 +2,7 @@ mod c01;
 mod c05;
 mod c06;
 mod c08;
+mod c08k;
 mod c16;
 mod c17;
 mod c18;
